@@ -34,6 +34,10 @@ type lockRef struct {
 	// Blocking: function -> blocking operation (channel receive / send / select, Wait, Sleep, call
 	// through an interface) -> locks certainly held at some occurrence (union); empty = never under a lock
 	Blocking map[string]map[string][]string `json:"blocking"`
+	// Snapshots: function literal -> mutable fields whose value at the time the literal is created is
+	// carried into it (captured directly or through arithmetic / len)
+	Snapshots map[string][]string `json:"snapshots"`
+	Closures  map[string]bool     `json:"closures"` // every function literal of the reference tree (a literal that is not listed is new)
 }
 
 var lockGroups = groupsOf([][]string{
@@ -368,11 +372,92 @@ func blockingUnderLocks(g *ssa.Function) (map[string][]string, map[string]token.
 	return out, where
 }
 
+// capturedSnapshots: for every function literal created in g, the mutable fields whose current
+// value flows into one of its captured variables (a snapshot that the literal uses later).
+func capturedSnapshots(g *ssa.Function, mutable map[string]bool) map[*ssa.Function][]string {
+	out := map[*ssa.Function][]string{}
+	allInstrs(g, func(ins ssa.Instruction) {
+		mc, ok := ins.(*ssa.MakeClosure)
+		if !ok {
+			return
+		}
+		fn, ok := mc.Fn.(*ssa.Function)
+		if !ok {
+			return
+		}
+		found := map[string]bool{}
+		seen := map[ssa.Value]bool{}
+		var walk func(v ssa.Value, depth int)
+		walk = func(v ssa.Value, depth int) {
+			if v == nil || seen[v] || depth > 8 {
+				return
+			}
+			seen[v] = true
+			switch x := v.(type) {
+			case *ssa.UnOp:
+				if x.Op == token.MUL {
+					switch a := x.X.(type) {
+					case *ssa.FieldAddr:
+						if k := canonFieldKey(a.X.Type(), a.Field); mutable[k] {
+							// a value (not a reference through which the literal would see later updates)
+							if _, isPtr := x.Type().Underlying().(*types.Pointer); !isPtr {
+								found[k] = true
+							}
+						}
+					case *ssa.Alloc:
+						// a local variable: what was stored into it
+						if refs := a.Referrers(); refs != nil {
+							for _, r := range *refs {
+								if st, ok := r.(*ssa.Store); ok && st.Addr == ssa.Value(a) {
+									walk(st.Val, depth+1)
+								}
+							}
+						}
+					}
+					return
+				}
+				walk(x.X, depth+1)
+			case *ssa.Alloc:
+				// captured by reference: the values it holds when the literal is created
+				if refs := x.Referrers(); refs != nil {
+					for _, r := range *refs {
+						if st, ok := r.(*ssa.Store); ok && st.Addr == ssa.Value(x) {
+							walk(st.Val, depth+1)
+						}
+					}
+				}
+			case *ssa.BinOp:
+				walk(x.X, depth+1)
+				walk(x.Y, depth+1)
+			case *ssa.Phi:
+				for _, e := range x.Edges {
+					walk(e, depth+1)
+				}
+			case *ssa.Convert:
+				walk(x.X, depth+1)
+			case *ssa.ChangeType:
+				walk(x.X, depth+1)
+			case *ssa.Call:
+				if b, isB := x.Call.Value.(*ssa.Builtin); isB && (b.Name() == "len" || b.Name() == "cap") {
+					walk(x.Call.Args[0], depth+1)
+				}
+			}
+		}
+		for _, b := range mc.Bindings {
+			walk(b, 0)
+		}
+		if len(found) > 0 {
+			out[fn] = sortedKeys(found)
+		}
+	})
+	return out
+}
+
 // mutableFields: fields of module structs stored outside constructors.
 func mutableFields(p *Program, pkgs []string) map[string]bool {
 	out := map[string]bool{}
 	for _, rel := range pkgs {
-		for _, tf := range p.pkgFuncs(rel) {
+		for _, tf := range p.srcFuncs(rel) {
 			if strings.HasPrefix(tf.Name(), "New") || strings.HasPrefix(tf.Name(), "new") || tf.Name() == "init" {
 				continue
 			}
@@ -403,11 +488,11 @@ func genLockReference(repo string) error {
 	if err != nil {
 		return err
 	}
-	ref := lockRef{Note: "per function: for every access to a mutable field / method of the package / interface held in a field, the locks held at every occurrence on the reference tree; generated by `bbcheck -gen-reference`, never written by a check", Held: map[string]map[string][]string{}, Blocking: map[string]map[string][]string{}}
+	ref := lockRef{Note: "per function: for every access to a mutable field / method of the package / interface held in a field, the locks held at every occurrence on the reference tree; generated by `bbcheck -gen-reference`, never written by a check", Held: map[string]map[string][]string{}, Blocking: map[string]map[string][]string{}, Snapshots: map[string][]string{}, Closures: map[string]bool{}}
 	mut := mutableFields(p, allLockPkgs())
 	ref.Mutable = sortedKeys(mut)
 	for _, rel := range allLockPkgs() {
-		for _, tf := range p.pkgFuncs(rel) {
+		for _, tf := range p.srcFuncs(rel) {
 			withAnon(tf, func(g *ssa.Function) {
 				m := lockedAccesses(g, mut, tf.Pkg)
 				// only what is done under some lock is a reference fact
@@ -421,6 +506,12 @@ func genLockReference(repo string) error {
 				}
 				if bl, _ := blockingUnderLocks(g); len(bl) > 0 {
 					ref.Blocking[FuncName(g)] = bl
+				}
+				for lit, fields := range capturedSnapshots(g, mut) {
+					ref.Snapshots[FuncName(lit)] = fields
+				}
+				if g.Parent() != nil {
+					ref.Closures[FuncName(g)] = true
 				}
 			})
 		}
@@ -450,11 +541,31 @@ func runLockDrift(c *Ctx, pkgs []string) {
 		mut[m] = true
 	}
 	for _, rel := range pkgs {
-		for _, tf := range c.pkgFuncs(rel) {
+		for _, tf := range c.srcFuncs(rel) {
 			withAnon(tf, func(g *ssa.Function) {
 				fk := refKey(g)
 				if fk == "" {
 					return
+				}
+				// snapshots of mutable state carried into function literals
+				for lit, fields := range capturedSnapshots(g, mut) {
+					lk := refKey(lit)
+					if lk == "" {
+						continue
+					}
+					if _, closureKnown := lockRefCache.Closures[lk]; !closureKnown {
+						continue
+					}
+					was := map[string]bool{}
+					for _, f := range lockRefCache.Snapshots[lk] {
+						was[f] = true
+					}
+					for _, f := range fields {
+						if was[f] {
+							continue
+						}
+						c.Fail(lk, "no-new-snapshot "+f, c.Pos(lit.Pos()), "the function literal now works with the value "+f+" had when the literal was created (captured directly, or through arithmetic or len); on the reference tree it reads that state itself when it runs. The literal runs later – after the lock was released and re-taken, after other uploads rotated or appended blocks – so the remembered value can be stale by then")
+					}
 				}
 				// operations that may block: not under a lock they were never under
 				if wantB, knownB := lockRefCache.Blocking[fk]; knownB {
